@@ -100,7 +100,10 @@ def native_replay(gosmt, mpath, m, entry, replay_path, timeout=600):
         rep[os.path.join(pkgdir, "zz_verif_replay_test.go")] = tp
         ov = os.path.join(tmp, "overlay.json")
         json.dump({"Replace": rep}, open(ov, "w"))
-        env = dict(GOENV, VERIF_REPLAY=os.path.abspath(replay_path), VERIF_ENTRY=entry)
+        # temporary directories the harness creates natively live (and die) with this replay
+        ntmp = os.path.join(tmp, "native-tmp")
+        os.makedirs(ntmp, exist_ok=True)
+        env = dict(GOENV, VERIF_REPLAY=os.path.abspath(replay_path), VERIF_ENTRY=entry, TMPDIR=ntmp)
         try:
             r = subprocess.run(["go", "test", "-vet=off", "-count=1", "-overlay", ov, "-run", "^TestVerifReplay$", "-v", "./" + m["package"]],
                                cwd=REPO, env=env, capture_output=True, text=True, timeout=timeout)
